@@ -76,7 +76,10 @@ static void * th_ops(void * a) {
     } else if (what < 85) {
       e->op = 'g'; e->val = (unsigned long)myth_getspecific(key);
     } else {
-      e->op = 'y'; myth_yield();
+      /* give other workers time to steal this thread, and run stolen threads first */
+      volatile int spin; e->op = 'y';
+      for (spin = 0; spin < 3000; spin++) ;
+      if (what < 93) myth_yield(); else myth_yield_ex(myth_yield_option_steal_first);
     }
   }
   return 0;
